@@ -661,7 +661,7 @@ Proof.
   - destruct H as [-> ->]. split; [apply sec_same_refl|constructor].
   - destruct (route st now (b :: pkt)) as [t|].
     + destruct H as (L & Ho & Hs & Hf). split; [eapply sec_same_slots; eassumption|].
-      revert Hf. apply Forall_imp. intros [] Hx; simpl in *; tauto.
+      revert Hf. apply Forall_imp. intros [] Hx; simpl in Hx |- *; first [exact I | contradiction].
     + destruct H as [-> ->]. split; [apply sec_same_refl|constructor].
 Qed.
 
